@@ -430,6 +430,33 @@ fn world_inner(e: &mut Emit, cfg: &Cfg, plan: &Plan) -> Option<Vec<String>> {
                 e.verdict(ok, &format!("mp_low_decrypt dec {} cf={}", id, low.correction_factor()), &lowcls("low-decrypt"), "collective decryption of a modulus-switched ciphertext is not the plaintext for every party");
                 if let Some(Some(p0)) = pts.get(0) { e.case(format!("prog {} {} {}", ct_case(&sk_sum_c, &low), pred_low, fl(&trim(&m1))), &lowcls("low-collective-decrypt"), pt_str(p0)); }
             }
+            // collective key switch and public-key switch of the modulus-switched ciphertext: the result must carry the plaintext (incl. the
+            // correction-factor bookkeeping) under the new summed key / the receiver's key
+            {
+                let newk: Vec<SecretKey> = (0..cnt).map(|_| KeyGenerator::new(ctx.clone()).secret_key().clone()).collect();
+                let mut protos: Vec<_> = parties.iter().zip(&newk).map(|(p, k)| p.key_switch(&low, k)).collect();
+                let msgs: Vec<Vec<u8>> = protos.iter().map(|p| { let mut m = vec![]; p.send(&mut m).unwrap(); m }).collect();
+                for (sd, rc) in all_to_all(cnt) { protos[rc].receive(sd, &mut msgs[sd].as_slice()).unwrap(); }
+                let cts = finish_all!(protos, |p: KeySwitchProtocol| p.finish());
+                let mut sum = vec![0u64; key_qs.len() * n];
+                for k in newk.iter() { sum = add_mod_rns(&sum, k.data(), n, &key_qs); }
+                let mut skn = sk_sum.clone(); skn.data_mut().copy_from_slice(&sum);
+                let dn = Decryptor::new(ctx.clone(), skn);
+                let skc = centred_sk(&ctx, n, &sum);
+                let ok = cts.iter().all(|c| c.as_ref().map(|c| guard(|| dec_pt(&dn, c)) == fl(&trim(&m1))).unwrap_or(false));
+                e.verdict(ok, &format!("mp_low_key_switch ks {} cf={}", id, low.correction_factor()), &lowcls("low-key-switch"), "collective key switch of a modulus-switched ciphertext does not decrypt to the plaintext under the new summed key");
+                if let Some(Some(c0)) = cts.get(0) { e.case(format!("prog {} {} {}", ct_case(&skc, c0), pred_low, fl(&trim(&m1))), &lowcls("low-key-switch-phase"), guard(|| dec_pt(&dn, c0))); }
+            }
+            {
+                let target_pk = s.keygen.create_public_key(false);
+                let mut protos: Vec<_> = parties.iter().map(|p| p.public_key_switch(&low, &target_pk)).collect();
+                let msgs: Vec<Vec<u8>> = protos.iter().map(|p| { let mut m = vec![]; p.send(&mut m).unwrap(); m }).collect();
+                for (sd, rc) in all_to_all(cnt) { protos[rc].receive(sd, &mut msgs[sd].as_slice()).unwrap(); }
+                let cts = finish_all!(protos, |p: PublicKeySwitchProtocol| p.finish());
+                let ok = cts.iter().all(|c| c.as_ref().map(|c| guard(|| s.dec_str(c)) == fl(&trim(&m1))).unwrap_or(false));
+                e.verdict(ok, &format!("mp_low_public_key_switch pks {} cf={}", id, low.correction_factor()), &lowcls("low-public-key-switch"), "public-key switch of a modulus-switched ciphertext does not decrypt to the plaintext under the receiver's key");
+                if let Some(Some(c0)) = cts.get(0) { e.case(format!("prog {} {} {}", s.ct_case(c0), pred_low - ln as i64 - 1, fl(&trim(&m1))), &lowcls("low-public-key-switch-phase"), guard(|| s.dec_str(c0))); }
+            }
             if ctx.first_context_data().unwrap().qualifiers().using_batching {
                 let sampler = BFVShareSampler::new(ctx.clone());
                 let enc = BFVSimdShareEncoder::new(ctx.clone());
